@@ -49,7 +49,12 @@ pub fn case(ctx: &Ctx, idx: u64) -> CaseOut {
     let mut opts = GenOpts::new(profile, max_dep);
     opts.decoupled_depots = true;
     let tag = format!("f{}c{}", ctx.seed, idx);
-    let input = gen::generate(&mut rng, &opts, &tag);
+    let mut input = gen::generate(&mut rng, &opts, &tag);
+    if idx % 40 == 7 {
+        // a structure where one more vehicle would save many dead-head trips at once
+        input = gen::chain_network(&mut rng, &tag);
+        out.count("shifted_chain_networks", 1);
+    }
     let b = match Bridge::new(&input) {
         Ok(b) => b,
         Err(e) => panic!("bridge: {}", e),
